@@ -50,7 +50,9 @@ impl<'t, D: Doc> ScanResultInner<'t, D> {
   }
 }
 
-struct Suppressions(HashMap<usize, Suppression>);
+/// suppressions by the line they apply to. One line can have two of them:
+/// an own-line comment on the line before and a trailing comment on the line itself.
+struct Suppressions(HashMap<usize, Vec<Suppression>>);
 impl Suppressions {
   fn collect<D: Doc>(&mut self, node: &Node<D>) {
     if !node.kind().contains("comment") || !node.text().contains(IGNORE_TEXT) {
@@ -63,17 +65,14 @@ impl Suppressions {
       true
     };
     let key = if suppress_next_line { line + 1 } else { line };
-    self.0.insert(
-      key,
-      Suppression {
-        suppressed: parse_suppression_set(&node.text()),
-        node_id: node.node_id(),
-      },
-    );
+    self.0.entry(key).or_default().push(Suppression {
+      suppressed: parse_suppression_set(&node.text()),
+      node_id: node.node_id(),
+    });
   }
 
   fn suppression_ids(&self) -> HashSet<usize> {
-    self.0.values().map(|s| s.node_id).collect()
+    self.0.values().flatten().map(|s| s.node_id).collect()
   }
 
   fn check_suppression<D: Doc>(&mut self, node: &Node<D>) -> MaySuppressed {
@@ -93,25 +92,28 @@ struct Suppression {
 }
 
 enum MaySuppressed<'a> {
-  Yes(&'a Suppression),
+  Yes(&'a [Suppression]),
   No,
 }
 
 impl MaySuppressed<'_> {
-  fn suppressed_id(&self, rule_id: &str) -> Option<usize> {
-    let suppression = match self {
-      MaySuppressed::No => return None,
+  /// node ids of all suppression comments that silence the rule on this line
+  fn suppressed_ids(&self, rule_id: &str) -> Vec<usize> {
+    let suppressions = match self {
+      MaySuppressed::No => return vec![],
       MaySuppressed::Yes(s) => s,
     };
-    if let Some(set) = &suppression.suppressed {
-      if set.contains(rule_id) {
-        Some(suppression.node_id)
-      } else {
-        None
-      }
-    } else {
-      Some(suppression.node_id)
-    }
+    suppressions
+      .iter()
+      .filter(|suppression| {
+        if let Some(set) = &suppression.suppressed {
+          set.contains(rule_id)
+        } else {
+          true
+        }
+      })
+      .map(|suppression| suppression.node_id)
+      .collect()
   }
 }
 
@@ -192,8 +194,11 @@ impl<'r, L: Language> CombinedScan<'r, L> {
         let Some(ret) = rule.matcher.match_node(node.clone()) else {
           continue;
         };
-        if let Some(id) = suppression.suppressed_id(&rule.id) {
-          suppression_ids.remove(&id);
+        let suppressed_by = suppression.suppressed_ids(&rule.id);
+        if !suppressed_by.is_empty() {
+          for id in suppressed_by {
+            suppression_ids.remove(&id);
+          }
           continue;
         }
         if rule.fix.is_none() || !separate_fix {
